@@ -26,7 +26,8 @@ fn main() {
                 .unwrap_or_default();
             let current = arg(&args, "--current");
             let profile = arg(&args, "--profile").and_then(|p| Prop::parse(&p));
-            let cfg = runner::WorkerCfg { prop, thorough, seed, cases, known, current, profile };
+            let hang_marker = Some(format!("{}.hang", out));
+            let cfg = runner::WorkerCfg { prop, thorough, seed, cases, known, current, profile, hang_marker };
             let res = if prop == Prop::C07 { gv::faults::worker(&cfg) } else { runner::worker(&cfg) };
             std::fs::write(&out, serde_json::to_string(&res).unwrap()).expect("write result");
         }
@@ -62,6 +63,15 @@ fn main() {
             let mut f = std::io::BufWriter::new(std::fs::File::create(out).expect("create"));
             for c in cs {
                 writeln!(f, "{}", serde_json::to_string(&c).unwrap()).unwrap();
+            }
+        }
+        "decode" => {
+            // bytes of a fuzzer input -> case JSON (same decoder as the fuzz target)
+            let path = arg(&args, "--input").expect("--input");
+            let data = std::fs::read(&path).expect("read input");
+            match gv::fuzzing::decode(&data) {
+                Some(c) => println!("{}", serde_json::to_string(&c).unwrap()),
+                None => std::process::exit(3),
             }
         }
         "transcript" => {
